@@ -514,6 +514,9 @@ func (p *Path) branch(c *Term, label string) bool {
 			return true
 		}
 	}
+	if lt := c; lt.Op == "str.<" || (lt.Op == "not" && lt.Args[0].Op == "str.<") {
+		return p.branchOrder(c)
+	}
 	firstFeasible := -1
 	ch := p.decide(2, label, func(i int) bool {
 		if i == 0 {
@@ -535,6 +538,55 @@ func (p *Path) branch(c *Term, label string) bool {
 	}
 	p.assume(nc)
 	return false
+}
+
+// ltFormula: a < b (bytewise) with fresh witnesses, as word equations (z3 cannot decide str.<).
+func (p *Path) ltFormula(a, b *Term) *Term {
+	u := p.freshVar("u", SStr)
+	c1, r1 := p.freshVar("c", SStr), p.freshVar("r", SStr)
+	c2, r2 := p.freshVar("c", SStr), p.freshVar("r", SStr)
+	one := mkInt(1)
+	prefix := mkAnd(mkEq(a, u), mkEq(b, mkConcat(u, c2, r2)), mkEq(mkLen(c2), one))
+	differ := mkAnd(mkEq(a, mkConcat(u, c1, r1)), mkEq(b, mkConcat(u, c2, r2)), mkEq(mkLen(c1), one), mkEq(mkLen(c2), one),
+		mkLt(mkApp("str.to_code", SInt, c1), mkApp("str.to_code", SInt, c2)))
+	return mkOr(prefix, differ)
+}
+
+// branchOrder decides a lexicographic comparison by a three-way split (a<b, a=b, b<a),
+// each side assumed in a positive, witness-carrying form.
+func (p *Path) branchOrder(c *Term) bool {
+	neg := c.Op == "not"
+	lt := c
+	if neg {
+		lt = c.Args[0]
+	}
+	a, b := lt.Args[0], lt.Args[1]
+	// fresh variables must be drawn deterministically: create all formulas up front
+	fLT := p.ltFormula(a, b)
+	fEQ := mkEq(a, b)
+	fGT := p.ltFormula(b, a)
+	opts := []*Term{fLT, fEQ, fGT}
+	ch := p.decide(3, "order", func(i int) bool { return p.feasibleWith(opts[i]) })
+	p.assume(opts[ch])
+	res := ch == 0
+	if res {
+		p.pcSet[lt.id] = true
+	} else {
+		p.pcSet[mkNot(lt).id] = true
+	}
+	// the symmetric literal is decided as well
+	rev := mkStrLt(b, a)
+	if !rev.IsConst() {
+		if ch == 2 {
+			p.pcSet[rev.id] = true
+		} else {
+			p.pcSet[mkNot(rev).id] = true
+		}
+	}
+	if neg {
+		return !res
+	}
+	return res
 }
 
 func (p *Path) freshVar(prefix string, s Sort) *Term {
